@@ -227,6 +227,23 @@ func printReport(rep *HarnessReport, ms []*Machine, show int) {
 			l = append(l, kv{k, d})
 		}
 		sort.Slice(l, func(i, j int) bool { return l[i].d > l[j].d })
+		type kc struct {
+			k string
+			c int
+		}
+		var sf []kc
+		for k, c := range debugCount {
+			if strings.HasPrefix(k, "SUMFAIL ") {
+				sf = append(sf, kc{k, c})
+			}
+		}
+		sort.Slice(sf, func(i, j int) bool { return sf[i].c > sf[j].c })
+		for i, e := range sf {
+			if i > 12 {
+				break
+			}
+			fmt.Printf("  %s n=%d\n", e.k, e.c)
+		}
 		for i, e := range l {
 			if i > 25 {
 				break
